@@ -171,6 +171,9 @@ impl<F: Float> Transformer<Kernel<F>, DatasetBase<Kernel<F>, Vec<usize>>>
         let mut tmp = vec![0; num_observations];
         #[cfg(linfa_verif)]
         linfa::verif_hooks::note_order("hierarchical.cluster_numbering", clusters.keys());
+        // number the clusters in the order of their ids, not in hash-map iteration order
+        let mut clusters = clusters.into_iter().collect::<Vec<_>>();
+        clusters.sort_unstable_by_key(|(cluster_id, _)| *cluster_id);
         for (i, (_, ids)) in clusters.into_iter().enumerate() {
             for id in ids {
                 tmp[id] = i;
